@@ -14,13 +14,13 @@ SeqsUpTo(S, n) == UNION { [1..k -> S] : k \in 0..n }
 Distinct(s) == \A i, j \in DOMAIN s : i # j => ~PyEq(s[i], s[j])
 
 (* ------------------------------------------------------------------ objects *)
-AllAtoms  == {i0, i1, i2, bF, bT, f1, f2, cj, sa, sb, none, oa, ob}
+AllAtoms  == {i0, i1, i2, bF, bT, f1, f2, cj, sa, sb, none, oa, ob, pm, og}
 TypeObjs  == {TypeObj("int"), TypeObj("bool"), TypeObj("str"), TypeObj("A"), TypeObj("B"), TypeObj("float")}
 ItemAtoms == IF Tier = "quick" THEN {i1, bT, sa, none, ob} ELSE {i1, bT, sa, none, ob, f1}
 KeyAtoms  == {i1, sa, none}
 SmallAtoms == {i1, sa}
 
-D1Seq  == { Cont(c, s) : c \in SeqCls \cup {"UColl", "dict_values"}, s \in SeqsUpTo(ItemAtoms, L) }
+D1Seq  == { Cont(c, s) : c \in SeqCls \cup {"UColl", "dict_values", "GL"}, s \in SeqsUpTo(ItemAtoms, L) }
 D1Set  == { Cont(c, s) : c \in {"set", "frozenset", "dict_keys"},
                           s \in { t \in SeqsUpTo(ItemAtoms, L) : Distinct(t) } }
 D1Iter == { Iter(c, s) : c \in IterCls, s \in SeqsUpTo(SmallAtoms \cup {none}, 2) }
@@ -57,7 +57,8 @@ LeafAll == {HAny, HCls("object"), IntH, HCls("bool"), StrH, HCls("float"), HCls(
             HCls("A"), HCls("B"), HCls("list"), HCls("dict"),
             HLit(<<i1>>), HLit(<<i1, sa>>), HLit(<<bT>>), HLit(<<none, sb>>),
             HType(IntH), HType(HAny), HType(HUnion(<<IntH, StrH>>)), HType(HCls("A")),
-            HShallow("Iterator"), HShallow("Generator")}
+            HShallow("Iterator"), HShallow("Generator"),
+            HCls("HasM"), HCls("PM"), HGen("G", IntH), HGen("GL", IntH), HGen("GL", HAny), HGen("GL", HCls("HasM"))}
 LeafKid == IF Tier = "quick"
            THEN {HAny, IntH, StrH, NoneH, HCls("float"), HLit(<<i1, sa>>), HCls("A")}
            ELSE {HAny, HCls("object"), IntH, HCls("bool"), StrH, NoneH, HCls("float"), HCls("complex"),
@@ -71,6 +72,7 @@ D1H == { HSeq(s, c)   : s \in SeqSigns,   c \in LeafKid }
   \cup { HMap(s, k, v) : s \in MapSigns \ {"Counter"}, k \in KeyKid, v \in LeafKid }
   \cup { HCounter(k) : k \in KeyKid }
   \cup { HItems(k, v) : k \in {IntH, StrH}, v \in {IntH, StrH, HAny} }
+  \cup { HGen("GL", c) : c \in LeafKid } \cup { HSeq("list", HCls("HasM")), HUnion(<<HCls("HasM"), NoneH>>) }
   \cup { HTupF(s) : s \in SeqsUpTo(LeafKid, 2) }
   \cup { h \in U2(LeafKid \ {HAny}) : h.a[1] # h.a[2] }
   \cup { HUnion(<<IntH, StrH, NoneH>>), HUnion(<<IntH, HAny>>), HUnion(<<HUnion(<<IntH, StrH>>), NoneH>>) }
@@ -87,6 +89,8 @@ D2H == { HSeq(s, k)   : s \in {"list", "Sequence", "tuple"}, k \in Kid2 }
   \cup { HTupF(<<l, k>>) : k \in Kid2, l \in Leaf2 \cup {HAny} }
   \cup { HUnion(<<k, l>>) : k \in Kid2, l \in Leaf2 }
   \cup { HUnion(<<k, m>>) : k \in {HSeq("list", IntH), HMap("dict", StrH, IntH)}, m \in {HSeq("list", StrH), HTupF(<<IntH, StrH>>), HReit("set", IntH)} }
+  \cup { HSeq("list", HGen("GL", IntH)), HTupF(<<HGen("GL", StrH), IntH>>), HUnion(<<HGen("GL", IntH), NoneH>>),
+         HMap("dict", StrH, HGen("GL", IntH)), HGen("GL", HSeq("list", IntH)), HGen("GL", HUnion(<<IntH, StrH>>)) }
 
 HintSet == LeafAll \cup D1H \cup D2H
 HintSeq == TLCEval(SetToSeq(HintSet))
